@@ -22,15 +22,21 @@ def gen_static_defs(rng, w, npos=None, n_methods=None, allow_kw=True, allow_arit
             return rng.choice(anc)
         return rng.choice(cls_ids)
 
+    # one program in eight is a keyword family: most methods carry keyword-only parameters, so that several methods
+    # differing in their required / optional keywords compete for one call shape
+    kwfam = allow_kw and rng.random() < 0.125
     for i in range(n_methods):
         n = npos
-        if allow_arity and rng.random() < 0.25:
+        if allow_arity and not kwfam and rng.random() < 0.25:
             n = rng.randint(max(1, npos - 1), npos + 1)
         pos = [[0, pick(p)] for p in range(n)]
-        req = n if rng.random() < 0.8 else rng.randint(max(0, n - 1), n)
+        req = n if (kwfam or rng.random() < 0.8) else rng.randint(max(0, n - 1), n)
         kw = []
-        if allow_kw and rng.random() < 0.2:
-            kw = [[0, [0, rng.choice(cls_ids)], rng.random() < 0.5]]
+        if allow_kw and rng.random() < (0.85 if kwfam else 0.25):
+            # one or two keyword-only parameters (names 0 / 1), each required or optional: call shapes whose keyword
+            # set is incomparable with a method's required set need two names
+            names = rng.choice([[0], [0], [1], [0, 1], [0, 1], [1, 0]])
+            kw = [[k, [0, rng.choice(cls_ids)], rng.random() < 0.5] for k in names]
         defs.append({"id": i, "pos": pos, "npos_req": req, "kw": kw, "prio": rng.choice(prios)})
     if allow_dup and rng.random() < 0.3 and defs:
         d = dict(rng.choice(defs))
@@ -80,7 +86,7 @@ def gen_calls(rng, w, defs, n_calls=12):
         n = rng.randint(max(1, minreq), maxpos) if maxpos >= 1 else 0
         kws = {}
         if haskw and rng.random() < 0.4:
-            kws = {"0": rng.choice(inst)}
+            kws = {str(k): rng.choice(inst) for k in rng.choice([[0], [1], [0, 1]])}
             n = maxpos
         if n == 0 and not kws:
             continue
